@@ -471,7 +471,9 @@ func runC17(cfg *Config) *Report {
 					}
 				}
 			}
-			// the same question asked for the character: every answer is a character of the alphabet (bound, not a placeholder)
+			// the same question asked for the character: every answer is a character of the alphabet, or the character is left
+			// unbound (the answer is the query variable itself) - which says "for every character" and is right exactly when the
+			// derivatives by a and by b denote the same language (r = ε, ∅, ...)
 			{
 				ctx, cancel := context.WithTimeout(context.Background(), tmo)
 				var st *gomini.State
@@ -480,12 +482,25 @@ func runC17(cfg *Config) *Report {
 				} else {
 					st = gomini.NewState()
 				}
+				var chVar *rune
 				cs := gomini.RunTake(ctx, 4, st, func(ch *rune) gomini.Goal {
+					chVar = ch
 					return gomini.ExistO(func(dr *regex.Regex) gomini.Goal { return regex.SDerivO(re.toGo(), ch, dr) })
 				})
 				cancel()
 				for _, a := range cs {
-					if c, ok := a.(*rune); ok && (c == nil || (*c != 'a' && *c != 'b')) {
+					c, ok := a.(*rune)
+					if !ok {
+						continue
+					}
+					if c != nil && c == chVar { // unbound
+						if same, decided := sameLang17(deriv17(re, 'a'), deriv17(re, 'b')); decided && !same {
+							rep.violate(i, "generated-character-outside-alphabet", desc, fmt.Sprintf("SDerivO(%s, ?c, ?dr) has an answer that leaves the character unbound, although the derivatives by a and by b differ", re))
+							break
+						}
+						continue
+					}
+					if c == nil || (*c != 'a' && *c != 'b') {
 						show := "nil"
 						if c != nil {
 							show = fmt.Sprintf("%q", *c)
